@@ -172,7 +172,7 @@ func CFListDRRange(c Config) (int, int, bool) {
 		for d := -1; d <= 16; d++ {
 			b := c.New()
 			if b.AddChannel(868100000, a, d) != nil {
-				return 0, 0, false
+				continue // not a data-rate range the band accepts
 			}
 			if b.GetCFList(band.LoRaWAN_1_0_3) != nil {
 				return a, d, true
@@ -180,6 +180,23 @@ func CFListDRRange(c Config) (int, int, bool) {
 		}
 	}
 	return 0, 0, false
+}
+
+// UplinkDataRates lists the data-rate indices the band defines for uplink:
+// GetDataRate(dr) succeeds and the (unexported) uplink flag of the returned
+// value is set.
+func UplinkDataRates(b band.Band) []int {
+	var out []int
+	for dr := -2; dr <= 64; dr++ {
+		var d band.DataRate
+		if Call(func() error { var err error; d, err = b.GetDataRate(dr); return err }) != KOk {
+			continue
+		}
+		if reflect.ValueOf(d).FieldByName("uplink").Bool() {
+			out = append(out, dr)
+		}
+	}
+	return out
 }
 
 func ChanList(cs []Chan) string {
